@@ -51,6 +51,9 @@ def _worker(args):
                                              + ''.join(traceback.format_tb(e.__traceback__)[-6:])}
     out['job'] = job['name']
     out['wall_s'] = round(time.time() - t0, 3)
+    if os.environ.get('VERIF_COVER_DIR'):
+        from . import cover
+        cover.dump()
     return out
 
 
